@@ -628,11 +628,21 @@ func verifC14Case(line string) (out string) {
 		}
 		p := &verifC14Pool{running: map[string]time.Time{}, unalloc: map[arvados.InstanceType]int{}, effects: map[int][]string{}}
 		for _, u := range verifC14Split(f[2]) {
-			n, err := strconv.Atoi(u)
-			if err != nil {
+			// "u" = live entry of Running() (zero time), "u:t" = the pool's "exited at t" placeholder
+			ut := strings.Split(u, ":")
+			n, err := strconv.Atoi(ut[0])
+			if err != nil || len(ut) > 2 {
 				return "bad-op"
 			}
 			p.running[test.ContainerUUID(n)] = time.Time{}
+			if len(ut) == 2 {
+				t, err := strconv.Atoi(ut[1])
+				if err != nil || t < 0 {
+					return "bad-op"
+				}
+				// (the queue snapshot is stamped verifC14Base: t < 5 exited before, t >= 5 after the last queue update)
+				p.running[test.ContainerUUID(n)] = verifC14Base.Add(time.Duration(t-5) * time.Second)
+			}
 		}
 		for _, tn := range verifC14Split(f[3]) {
 			kv := strings.Split(tn, ":")
